@@ -7,7 +7,8 @@ import C01 as c01
 PROP = 'C04'
 VARIANTS = ['apply', 'map', 'imap', 'imapu']
 REPLAYERS = {'pool.ApplyResult._ack': 'replayers/ack_owner.py', 'pool.Pool._join_exited_workers': 'replayers/join_exited.py',
-             'pool.Pool.mark_as_worker_lost': 'replayers/kinds_lost.py', 'pool.MapResult._set': 'replayers/kinds_lost.py'}
+             'pool.Pool.mark_as_worker_lost': 'replayers/kinds_lost.py', 'pool.MapResult._set': 'replayers/kinds_lost.py',
+             'pool.MapResult._ack': 'replayers/kinds_lost.py'}
 
 ASSUMPTIONS = [
     'worker.exitcode is what the OS reported (popen.poll: C19); a worker with exitcode None and a Popen object is alive',
